@@ -82,6 +82,7 @@ pub open spec fn lexer_wf(l: Lexer) -> bool {
     &&& l.cursor <= l.chars@.len() + 1
     &&& l.line_start_cursor <= l.cursor
     &&& l.interpol_stack@.len() >= 1
+    &&& l.interpol_stack@[0] is Not   // the bottom of the interpolation stack is the `Not` sentinel pushed by the constructors
     &&& l.lineno_token_starts <= l.cursor
     &&& l.col_token_starts <= 0x7FFF_FFFF
 }
